@@ -11,10 +11,14 @@ package lib
 // pure function of its value. Error values come from vconn.MkErr (the shapes the net package
 // produces).
 //
-// A read script that is exhausted with End "hold" models a silent peer: the Read blocks until the
-// connection is closed, or - once every other direction is blocked or finished, i.e. nothing can
-// happen any more before the stall deadline - returns the time-out error (virtual time: the 30 s /
-// 2 min waits cost nothing).
+// Time is virtual (level 1): a read step can carry a pause, and a read script that is exhausted with
+// End "hold" models a peer that stays silent for good. A Read that has to wait blocks until the
+// connection is closed, or - once every other direction is blocked in a Read or finished, i.e.
+// nothing else can happen at the current virtual time - the clock jumps to the earliest next event:
+// the arrival of a chunk, or the expiry of the read deadline the relay last set on a connection
+// (SetDeadline / SetReadDeadline; their real-clock argument is translated at the moment of the
+// call), which makes that Read return the time-out error. The 30 s / 2 min waits cost nothing, and
+// which deadline is in force where is exactly what the relay established.
 
 import (
 	"fmt"
